@@ -31,6 +31,9 @@ pub struct Shared {
     pub spin: bool,
     /// when false the server is not consulted (manual feeding only)
     pub auto_feed: bool,
+    /// the next write calls of the client fail with this io::ErrorKind index (crate::io::ERROR_KINDS; 255 = WouldBlock),
+    /// nothing is accepted: a transient transport error
+    pub fail_writes: Vec<u8>,
 }
 
 pub type Handle = Rc<RefCell<Shared>>;
@@ -40,7 +43,7 @@ pub struct Duplex(pub Handle);
 pub fn new_duplex(profile: ServerProfile, fault: Option<Fault>) -> (Duplex, Handle) {
     let mut server = Server::new(profile);
     server.fault = fault;
-    let h = Rc::new(RefCell::new(Shared { server, to_client: VecDeque::new(), pending: Vec::new(), transcript: Vec::new(), eof_reads: 0, delivered: 0, sent_msgs: Vec::new(), chunk: 0, spin: false, auto_feed: true }));
+    let h = Rc::new(RefCell::new(Shared { server, to_client: VecDeque::new(), pending: Vec::new(), transcript: Vec::new(), eof_reads: 0, delivered: 0, sent_msgs: Vec::new(), chunk: 0, spin: false, auto_feed: true, fail_writes: Vec::new() }));
     (Duplex(h.clone()), h)
 }
 
@@ -95,6 +98,11 @@ impl Write for Duplex {
     fn write(&mut self, buf: &[u8]) -> io::Result<usize> {
         unaccounted(|| {
             let mut s = self.0.borrow_mut();
+            if !s.fail_writes.is_empty() {
+                let k = s.fail_writes.remove(0);
+                let kind = if k == 255 { io::ErrorKind::WouldBlock } else { crate::io::ERROR_KINDS[k as usize % crate::io::ERROR_KINDS.len()] };
+                return Err(io::Error::new(kind, "injected transient write error"));
+            }
             s.pending.extend_from_slice(buf);
             s.transcript.extend_from_slice(buf);
             Ok(buf.len())
@@ -142,11 +150,15 @@ pub struct ClientCfg {
     pub blank_creds: bool,
     pub nla: bool,
     pub check_certificate: bool,
+    /// order in which the Connector's setters are called (0 = the order of the builder's declaration); bit 15: every boolean
+    /// setter is first called with the opposite value (a toggle that ends where it should)
+    #[serde(default)]
+    pub setter_order: u16,
 }
 
 impl ClientCfg {
     pub fn simple() -> ClientCfg {
-        ClientCfg { width: 800, height: 600, layout: 7, name: "rdp-rs".into(), domain: "".into(), user: "user".into(), password: "pass".into(), hash: None, auto_logon: false, restricted_admin: false, blank_creds: false, nla: false, check_certificate: false }
+        ClientCfg { width: 800, height: 600, layout: 7, name: "rdp-rs".into(), domain: "".into(), user: "user".into(), password: "pass".into(), hash: None, auto_logon: false, restricted_admin: false, blank_creds: false, nla: false, check_certificate: false, setter_order: 0 }
     }
     pub fn layout(&self) -> KeyboardLayout {
         LAYOUTS[self.layout as usize % LAYOUTS.len()]
@@ -223,6 +235,7 @@ pub fn gen_cfg(s: &mut Src) -> ClientCfg {
         blank_creds: s.chance(64),
         nla: s.bool(),
         check_certificate: false,
+        setter_order: 0,
     }
 }
 
